@@ -240,6 +240,8 @@ def clause2_mutation(ctx, P, T):
     KEYINVAL = Q.macro(P, "router.c", "HASHTABLE_KEYINVAL")
     bad = None
     nins = 0
+    nover = 0
+    badover = None
     refuse = False
     for v in Q.path_views(ctx, P, put):
         rc = v.ret_const()
@@ -249,7 +251,23 @@ def clause2_mutation(ctx, P, T):
             continue
         keyst = [i for _, i in v.insts() if i.op == "store" and (_slot_field_store(P, put, i) or (None, None))[1] == "key"]
         if not keyst:
-            continue  # overwrite of an existing key
+            # overwrite of an existing key: the new value is stored on EVERY such path (whatever the caller passed for prev_value)
+            nover += 1
+            vparam = put.params[2]["name"]
+            stored = False
+            for _, i in v.insts():
+                if i.op == "store":
+                    sf = _slot_field_store(P, put, i)
+                    if sf and sf[1] == "value":
+                        stored = True
+                if i.op == "call" and i.callee and P.srcname_of(i.callee).startswith("llvm.memcpy"):
+                    dt = P.term(put, i.a[0])
+                    if Q.mentions(dt, lambda x: x[0] == "field" and x[2] == "struct.hashtable_string" and x[3] == "value") and \
+                            Q.mentions(P.term(put, i.a[1]), lambda x: x[0] in ("param", "alloca")):
+                        stored = True
+            if not stored:
+                badover = v
+            continue
         nins += 1
         hop = [i for _, i in v.insts() if i.op == "store" and (_slot_field_store(P, put, i) or (None, None))[1] == "hop_info"]
         okh = False
@@ -257,15 +275,29 @@ def clause2_mutation(ctx, P, T):
             sf = _slot_field_store(P, put, h)
             vt = P.term(put, h.a[0])
             home = Q.mentions(sf[0], lambda x: Q.is_call_to(x, T.hash.srcname))
-            okh = home and vt[0] == "op" and vt[1] == "or" and Q.mentions(vt, lambda x: x[0] == "op" and x[1] == "shl" and x[2][0] == ("const", 1))
+            dest = P.term(put, h.a[1])
+            okh = home and vt[0] == "op" and vt[1] == "or" and Q.mentions(vt, lambda x: x[0] == "op" and x[1] == "shl" and x[2][0] == ("const", 1)) \
+                and ("load", dest) in vt[2]   # the bit is OR-ed into the home word as it is NOW, not into a scan-local copy
         # duplicate scan completed: the scan loop's exit atom hop_info == 0 on the path
         scanned = v.has_atom(lambda a, p: a[0] == "cmp" and a[3] == ("const", 0) and a[2][0] == "phi" and Q._poleq(a, p))
         if not (okh and scanned):
-            bad = (v, "home_bit_set=%s duplicate_scan_done=%s" % (okh, scanned))
+            bad = (v, "home_bit_set_in_freshly_read_word=%s duplicate_scan_done=%s" % (okh, scanned))
     ctx.ob("C17.2 R-ORDER", put, "insert-success-path", bad is None and nins > 0,
            "insertion path does not (finish the duplicate scan, write key and value, set bit <distance> in the home bucket): %s"
            % (bad[1] if bad else ""), witness=bad[0].witness() if bad else None)
     ctx.ob("C17.2 R-GATE", put, "invalid-key-refused", refuse, "the invalid-key marker is not refused as a key")
+    ctx.ob("C17.2 R-ORDER", put, "overwrite-stores-the-new-value", badover is None and nover > 0,
+           "put() under a key that is already present reports success on a path that does not store the new value (e.g. only when the "
+           "caller asked for the previous one): a lookup returns the old value", witness=badover.witness() if badover else None)
+    # key equality is equality of the whole string
+    for ie in P.by_src.get("is_equal_string", []):
+        okeq = False
+        for v in Q.path_views(ctx, P, ie):
+            t = P.term(ie, v.ret_operand()) if v.ret_operand() is not None else None
+            okeq = t is not None and Q.mentions(t, lambda x: Q.is_call_to(x, "strcmp")) and not Q.mentions(t, lambda x: Q.is_call_to(x, ("strncmp", "memcmp", "strncasecmp")))
+        ctx.ob("C17.2 R-PAIR", ie, "keys-compared-as-whole-strings", okeq,
+               "is_equal_string() does not compare the two keys with strcmp(): keys that differ beyond the compared part are one key to "
+               "get/put/remove while they hash differently")
     # displacement: only key and value of the vacated slot are copied; the hop word of the slot being filled belongs to
     # the bucket that is HOMED there and must not be touched; the hop word of the checked bucket is rewritten once
     fc = T.closer
